@@ -536,7 +536,20 @@ class Recorder:
             await simnet.quiet(self.host.aiozc.async_close())
 
     def run(self) -> dict:
-        self.net.run(self.main(), limit_ms=self.sc.get('limit_ms', 24 * 3600 * 1000))
+        import logging
+        lg = logging.getLogger('zeroconf')
+        level, handlers, prop = lg.level, list(lg.handlers), lg.propagate
+        if self.sc.get('debug_log'):
+            # the application has debug logging switched on for the library (process-wide state, read once per datagram)
+            lg.setLevel(logging.DEBUG)
+            lg.handlers = [logging.NullHandler()]
+            lg.propagate = False
+        try:
+            self.net.run(self.main(), limit_ms=self.sc.get('limit_ms', 24 * 3600 * 1000))
+        finally:
+            lg.setLevel(level)
+            lg.handlers = handlers
+            lg.propagate = prop
         # merge rand / exc events of the simulator log in time order
         extra = []
         for e in self.net.log:
